@@ -195,3 +195,272 @@ def check_dispatch(prog, res, fn, var, rule='V2', allowed_else_body=None,
                     'value (no raise, no validated set)' % (
                         var, sorted(map(str, ch.handled))))
   return n
+
+
+# ---------------------------------------------------------------------------
+# V1 - validator coverage
+def is_validator(fn):
+  return isinstance(fn, FunctionInfo) and fn.cls is None and (
+      fn.name.startswith('verify_') or fn.name.startswith('_verify_'))
+
+
+def validator_calls(prog, fn):
+  """[(call, validator FunctionInfo)] in fn."""
+  out = []
+  for c in ast.walk(fn.node):
+    if isinstance(c, ast.Call):
+      r = prog.resolve_call(fn, c)
+      if is_validator(r):
+        out.append((c, r))
+  return out
+
+
+def validated_params(prog, cls, methods=('__init__', 'build'), depth=0):
+  """{validator param: [(where, value expr)]} over all validator calls that
+  run when an instance of cls is constructed / built, including validators
+  run by the constructors of repo classes that cls builds with forwarded
+  arguments.  Values are traced back to cls's own parameter / attribute
+  names: result maps *own names* (ctor parameter names) -> evidence."""
+  own = {}
+  init = cls.find_method('__init__')
+  if init is None:
+    return own
+  own_params = set(init.all_params)
+  for mname in methods:
+    m = cls.find_method(mname)
+    if m is None:
+      continue
+    for call, v in validator_calls(prog, m):
+      bound, _, _ = call_args(call, v.all_params)
+      for p, val in bound.items():
+        for r in names_read(val):
+          name = r[5:] if r.startswith('self.') else r
+          if name in own_params:
+            own.setdefault(name, []).append(
+                ('%s->%s(%s=)' % (m.qualname, v.qualname, p), p))
+    if depth < 2:
+      for c in ast.walk(m.node):
+        if not isinstance(c, ast.Call):
+          continue
+        r = prog.resolve_call(m, c)
+        if isinstance(r, ClassInfo) and r is not cls and r.find_method(
+            '__init__') is not None:
+          sub = validated_params(prog, r, ('__init__',), depth + 1)
+          rinit = r.find_method('__init__')
+          bound, _, _ = call_args(c, rinit.all_params)
+          for p, val in bound.items():
+            if p in sub:
+              for rd in names_read(val):
+                name = rd[5:] if rd.startswith('self.') else rd
+                if name in own_params:
+                  own.setdefault(name, []).append(
+                      ('%s->%s(%s=)' % (m.qualname, r.qualname, p), p))
+  return own
+
+
+def check_validator_belief(prog, res, cls, validator, rule='V1', aliases=None,
+                           exempt=None):
+  """A class that calls `validator` believes its hyperparameters need that
+  validation: every constructor parameter of cls that the validator accepts
+  (same name or alias) must reach it on the construct/build path."""
+  aliases = aliases or {}
+  exempt = exempt or {}
+  init = cls.find_method('__init__')
+  got = validated_params(prog, cls)
+  n = 0
+  for p in init.all_params:
+    vp = aliases.get(p, p)
+    if vp not in validator.all_params:
+      continue
+    n += 1
+    key = '%s|%s' % (cls.qualname, p)
+    if p in exempt:
+      res.ok(rule, key, init.loc(), 'exempt: ' + exempt[p])
+      continue
+    ev = got.get(p)
+    res.check(bool(ev), rule, key, init.loc(),
+              'validated via %s' % (ev[0][0] if ev else ''),
+              'constructor parameter %r of %s is accepted by %s but is never '
+              'passed to it during construction or build: invalid values are '
+              'not rejected up front' % (p, cls.name, validator.qualname))
+  return n
+
+
+def sibling_groups(prog, fn):
+  """Groups of repo classes constructed in different branches of one literal
+  dispatch chain inside fn."""
+  groups = []
+  for ch in dispatch_chains(fn.node):
+    classes = []
+    cur = ch.node
+    while True:
+      found = []
+      for st in cur.body:
+        for c in ast.walk(st):
+          if isinstance(c, ast.Call):
+            r = prog.resolve_call(fn, c)
+            if isinstance(r, ClassInfo):
+              found.append(r)
+      classes.append(found)
+      if len(cur.orelse) == 1 and isinstance(cur.orelse[0], ast.If):
+        cur = cur.orelse[0]
+      else:
+        break
+    flat = []
+    for f in classes:
+      for c in f:
+        if c not in flat:
+          flat.append(c)
+    kinds = {c.kind for c in flat}
+    if (len(flat) >= 2 and sum(1 for f in classes if f) >= 2
+        and len(kinds) == 1 and kinds <= {'Regularizer', 'Initializer',
+                                          'Constraint'}):
+      groups.append((ch, flat))
+  return groups
+
+
+def check_siblings(prog, res, fn, rule='V1s'):
+  """Classes selected by the same dispatch validate the same shared
+  constructor parameters."""
+  n = 0
+  for ch, classes in sibling_groups(prog, fn):
+    vals = {c: set(validated_params(prog, c, ('__init__',))) for c in classes}
+    shared = None
+    for c in classes:
+      ps = set(c.find_method('__init__').all_params)
+      shared = ps if shared is None else shared & ps
+    for c in classes:
+      others = set()
+      for o in classes:
+        if o is not c:
+          others |= vals[o]
+      for p in sorted(shared & others):
+        n += 1
+        key = '%s|%s' % (c.qualname, p)
+        res.check(p in vals[c], rule, key, c.loc(),
+                  '%s validates %s like its siblings' % (c.name, p),
+                  '%s does not validate constructor parameter %r although its '
+                  'sibling behind the same dispatch on `%s` (%s) does: '
+                  'malformed values fail later with an unrelated error or are '
+                  'silently truncated' % (
+                      c.name, p, ch.var,
+                      ', '.join(o.name for o in classes if o is not c)))
+  return n
+
+
+# ---------------------------------------------------------------------------
+# V6 - first-element probes
+def _flows_from_params(fn, name_or_attr, params, attr_sources):
+  if name_or_attr in params:
+    return True
+  if name_or_attr.startswith('self.') and name_or_attr[5:] in attr_sources:
+    return True
+  return False
+
+
+def check_probes(prog, res, fn, ctor_params, rule='V6', skip=()):
+  """`p[<int>]` on a value that is (an alias of) a constructor parameter must
+  be guarded by a truthiness / length test of p."""
+  n = 0
+  for sub in ast.walk(fn.node):
+    if not isinstance(sub, ast.Subscript):
+      continue
+    idx = const_value(sub.slice)
+    if not isinstance(idx, int) or isinstance(idx, bool):
+      continue
+    if not isinstance(sub.ctx, ast.Load):
+      continue
+    base = dotted(sub.value)
+    if base is None:
+      continue
+    pname = base[5:] if base.startswith('self.') else base
+    if pname not in ctor_params or pname in skip:
+      continue
+    # a loop variable of the same name shadows nothing here: require that
+    # base is not rebound by an enclosing for-loop target
+    gs = structural_guards(fn.node, sub) or []
+    guarded = False
+    for t, pol in gs:
+      if pol and _tests_nonempty(t, base):
+        guarded = True
+      if (not pol) and _tests_empty(t, base):
+        guarded = True
+    n += 1
+    key = '%s|%s[%d]' % (fn.qualname, base, idx)
+    res.check(guarded, rule, key, fn.loc(sub),
+              'probe %s[%d] is guarded by an emptiness test' % (base, idx),
+              'probe %s[%d] is reached for an empty %s (e.g. () or []): '
+              'IndexError instead of acceptance or ValueError; sibling sites '
+              'guard the same probe with a truthiness test' % (base, idx, base))
+  return n
+
+
+def _tests_nonempty(t, base):
+  if dotted(t) == base:
+    return True
+  if isinstance(t, ast.BoolOp) and isinstance(t.op, ast.And):
+    return any(_tests_nonempty(v, base) for v in t.values)
+  if isinstance(t, ast.Compare) and len(t.ops) == 1:
+    l = t.left
+    if (isinstance(l, ast.Call) and dotted(l.func) == 'len' and l.args
+        and dotted(l.args[0]) == base):
+      c = const_value(t.comparators[0])
+      op = t.ops[0]
+      if isinstance(op, ast.Eq) and isinstance(c, int) and c > 0:
+        return True
+      if isinstance(op, ast.Gt) and isinstance(c, int) and c >= 0:
+        return True
+      if isinstance(op, ast.GtE) and isinstance(c, int) and c >= 1:
+        return True
+      if isinstance(op, ast.NotEq) and c == 0:
+        return True
+  if isinstance(t, ast.Call) and dotted(t.func) == 'len' and t.args and \
+      dotted(t.args[0]) == base:
+    return True
+  return False
+
+
+def _tests_empty(t, base):
+  if isinstance(t, ast.UnaryOp) and isinstance(t.op, ast.Not):
+    return _tests_nonempty(t.operand, base)
+  if isinstance(t, ast.BoolOp) and isinstance(t.op, ast.Or):
+    return any(_tests_empty(v, base) for v in t.values)
+  if isinstance(t, ast.Compare) and len(t.ops) == 1:
+    l = t.left
+    if (isinstance(l, ast.Call) and dotted(l.func) == 'len' and l.args
+        and dotted(l.args[0]) == base):
+      c = const_value(t.comparators[0])
+      op = t.ops[0]
+      if isinstance(op, ast.Eq) and c == 0:
+        return True
+      if isinstance(op, ast.Lt) and isinstance(c, int) and c >= 1:
+        return True
+  return False
+
+
+# ---------------------------------------------------------------------------
+# V7 - raises reachable from a projection
+def call_closure(prog, roots, follow_init=True):
+  """{qualname: FunctionInfo} reachable through resolved repo calls."""
+  seen = {}
+  todo = list(roots)
+  while todo:
+    f = todo.pop()
+    if f is None or f.qualname in seen:
+      continue
+    seen[f.qualname] = f
+    for c in ast.walk(f.node):
+      if isinstance(c, ast.Call):
+        r = prog.resolve_call(f, c)
+        if isinstance(r, ClassInfo):
+          r = r.find_method('__init__') if follow_init else None
+        if isinstance(r, FunctionInfo):
+          todo.append(r)
+  return seen
+
+
+def raise_sites(fn):
+  """[(index, Raise node)] in source order, nested defs included."""
+  rs = [n for n in ast.walk(fn.node) if isinstance(n, ast.Raise)]
+  rs.sort(key=lambda n: (n.lineno, n.col_offset))
+  return list(enumerate(rs))
